@@ -103,6 +103,19 @@ impl StreamSpec {
 fn doc_bytes(a: Fmt, i: usize, doc_size: usize, variant: usize) -> Vec<u8> {
     let pad = "p".repeat(doc_size);
     let id = format!("{:09}", i);
+    // variants 4 and 5: the smallest documents there are (10-16 bytes: several fit
+    // into any look-ahead an implementation might take), and for YAML variant 5
+    // documents whose last byte is not ASCII (the line break belongs to the next one)
+    if variant >= 4 {
+        return match a {
+            // (one-element sequences: detection only recognises collections)
+            Fmt::Json => format!("[\"{}\"]\n", id).into_bytes(),
+            Fmt::Msgpack => crate::wr_msgpack::write_doc(&Val::Seq(vec![Val::Str(id)]), &Style::canonical()),
+            Fmt::Yaml if variant == 4 => format!("--- [\"{}\"]\n", id).into_bytes(),
+            Fmt::Yaml => format!("{}--- [\"{}\"] #\u{e9}", if i == 0 { "" } else { "\n" }, id).into_bytes(),
+            Fmt::Toml => unreachable!(),
+        };
+    }
     match a {
         Fmt::Json => match variant % 2 {
             0 => format!("{{\"id\":\"{}\",\"pad\":\"{}\",\"n\":[1,2.5,true,null]}}\n", id, pad).into_bytes(),
@@ -296,8 +309,14 @@ pub fn run_stream(spec: &StreamSpec, variant: usize) -> Result<StreamResult, Str
 }
 
 pub fn check_stream(spec: &StreamSpec, rec: &mut Recorder) -> Result<(), String> {
-    let variant = spec.n % 4;
+    let variant = spec.n % 6;
     let r = run_stream(spec, variant)?;
+    if variant >= 4 {
+        rec.class("tiny_documents");
+    }
+    if spec.a == Fmt::Yaml && variant == 5 {
+        rec.class("yaml_packets_end_in_non_ascii_byte");
+    }
     if spec.a == Fmt::Yaml && variant == 3 {
         rec.class("yaml_documents_with_directives");
     }
@@ -395,7 +414,7 @@ impl Check for C05 {
         vec![Unit::gen("streams", 16, tier.pick(40, 300)), Unit::enumerate("growth", 9)]
     }
     fn required_classes(&self, _tier: Tier) -> Vec<&'static str> {
-        vec!["memory_bound_checked", "detected", "explicit", "packet:one_document_per_read", "packet:several_documents_per_read", "packet:fraction_of_a_document", "pair:json->yaml", "pair:yaml->json", "pair:msgpack->msgpack", "pair:yaml->yaml", "doc:small", "doc:large", "growth_checked", "yaml_flow_first_document", "yaml_documents_with_directives"]
+        vec!["memory_bound_checked", "detected", "explicit", "packet:one_document_per_read", "packet:several_documents_per_read", "packet:fraction_of_a_document", "pair:json->yaml", "pair:yaml->json", "pair:msgpack->msgpack", "pair:yaml->yaml", "doc:small", "doc:large", "growth_checked", "yaml_flow_first_document", "yaml_documents_with_directives", "tiny_documents", "yaml_packets_end_in_non_ascii_byte"]
     }
     fn run_unit(&self, unit: &Unit, shard: u32, seed: u64, tier: Tier, rec: &mut Recorder) {
         match unit.name {
